@@ -21,8 +21,8 @@ Say(tid, v) == PrintT(<<"VERDICT", tid, v>>)
 
 St0(N) == [taint |-> [vn \in VarNames |-> {}], cc |-> [vn \in VarNames |-> 0],
            stamp |-> [vn \in VarNames |-> [L \in LoopIds |-> 0]], it |-> [L \in LoopIds |-> 0],
-           last |-> [i \in 1..N |-> NoObj], linf |-> [i \in 1..N |-> NoT], hot |-> {}, stmt |-> 0, matched |-> {},
-           tact |-> {}, wact |-> {}, jact |-> {}, pend |-> {}, tmut |-> [T \in LoopIds |-> {}], brk |-> [T \in LoopIds |-> {}]]
+           last |-> [i \in 1..N |-> NoObj], linf |-> [i \in 1..N |-> NoT], hot |-> {}, stmt |-> 0,
+           tact |-> {}, wact |-> {}, pend |-> {}, tmut |-> [T \in LoopIds |-> {}]]
 
 Known2(a, b) == a # NoObj /\ b # NoObj
 MaxOf(S) == IF S = {} THEN 0 ELSE CHOOSE m \in S : \A k \in S : k <= m
@@ -49,6 +49,13 @@ VariadicSource(st, nd, ev) ==
     /\ \E a \in SeqToSet(nd.ch) : /\ st.last[a] # NoObj /\ st.last[a].c = "tuple" /\ st.last[a] \in SubObjs(ev.v)
                                    /\ st.linf[a].k = "generic" /\ st.linf[a].c = "tuple" /\ Len(st.linf[a].args) = 1
 
+\* a call passed a plain dict[str, V] argument through to a result typed with a TypedDict (C04's open finding: a plain dict
+\* and a TypedDict are accepted for each other, so the type variable is solved to the TypedDict alone)
+DictForTDSource(st, nd, ev) ==
+    /\ nd.k = "Call" /\ ev.j /\ HasTypedDict(ev.i)
+    /\ \E a \in SeqToSet(nd.ch) : /\ st.last[a] # NoObj /\ st.last[a].c = "dict" /\ st.last[a] \in SubObjs(ev.v)
+                                   /\ st.linf[a].k = "generic" /\ st.linf[a].c = "dict"
+
 \* state after the evaluation event ev of node nd
 AfterEval(st, ev, nd) ==
     LET st1 == IF nd.s # st.stmt THEN [st EXCEPT !.hot = {}, !.stmt = nd.s] ELSE st
@@ -63,6 +70,7 @@ AfterEval(st, ev, nd) ==
                    !.hot = @ \cup (IF TupleAddSource(st1, nd, ev) THEN {<<KeyTupleAdd, ev.n>>} ELSE {})
                              \cup (IF nd.err THEN {<<KeyRejected, ev.n>>} ELSE {})
                              \cup (IF VariadicSource(st1, nd, ev) THEN {<<KeyVariadic, ev.n>>} ELSE {})
+                             \cup (IF DictForTDSource(st1, nd, ev) THEN {<<KeyDictTD, ev.n>>} ELSE {})
                              \cup (IF absT THEN {<<KeyAbsTruthy, ev.n>>} ELSE {})
                              \cup (IF ev.i.k = "any" THEN {<<KeyAny, ev.n>>} ELSE {})]
 
@@ -75,11 +83,14 @@ AfterStore(st, s) ==
         cls == IF s.via # "" /\ s.recv > 0 THEN st.last[s.recv].c ELSE "?"
         tn == UNION {st.taint[r] : r \in rd} \cup (IF s.n > 0 THEN HotKeys(st, {s.n} \cup SeqToSet(s.d)) ELSE {})
               \cup (IF Dev_UnmodelledMutator(cls, s.via) THEN {KeyUnmodelled} ELSE {})
-              \* assigned inside a with block that contains a break / continue statement (the block may be left by that jump)
-              \cup (IF st.jact # {} THEN {KeyBreakSupp} ELSE {})
               \* t += u on tuples goes through tuple.__add__ (class (c)); the statement has no node of its own
               \cup (IF s.via = "aug+" /\ cls = "tuple" /\ s.arg > 0 /\ st.last[s.arg].c = "tuple" /\ st.last[s.recv].items # << >>
                     THEN {KeyTupleAdd} ELSE {})
+              \* the same leniency when a list of shaped tuples is extended with a variadic tuple (list.__iadd__ / extend / append
+              \* check the element type with can_assign and leave the list type unchanged)
+              \cup (IF s.arg > 0 /\ cls = "list" /\ s.via \in {"aug+", ".extend", ".append"} /\ HasVariadicTuple(st.linf[s.arg])
+                    THEN {KeyVariadic} ELSE {})
+              \cup (IF s.recv > 0 /\ Dev_DictUnionMutation(cls, s.via, st.linf[s.recv]) THEN {KeyDictUnion} ELSE {})
               \cup (IF s.arg > 0 /\ Dev_ListExtendKnown(cls, s.via, st.last[s.arg], st.linf[s.arg]) THEN {KeyExtendKnown} ELSE {})
         c == MaxOf({Carry(st, r) : r \in rd})
         names == SeqToSet(s.names)
@@ -87,9 +98,7 @@ AfterStore(st, s) ==
                   !.cc = [vn \in VarNames |-> IF vn \in names THEN c ELSE @[vn]],
                   !.stamp = [vn \in VarNames |-> IF vn \in names THEN st.it ELSE @[vn]],
                   \* containers mutated in place inside a try / with block that is still running
-                  !.tmut = [T \in LoopIds |-> IF s.via # "" /\ T \in st.tact THEN @[T] \cup names ELSE @[T]],
-                  \* variables assigned inside a with block that contains a break / continue statement
-                  !.brk = [T \in LoopIds |-> IF T \in st.jact THEN @[T] \cup names ELSE @[T]]]
+                  !.tmut = [T \in LoopIds |-> IF s.via # "" /\ T \in st.tact THEN @[T] \cup names ELSE @[T]]]
 
 \* An exception left the block T (try body / with body) and was caught (handler entered, finally entered while the
 \* exception is in flight, suppressed by the context manager): the mutations the block performed before the exception
@@ -99,7 +108,6 @@ Caught(st, T) == IF T \in st.tact
                  THEN [st EXCEPT !.taint = [vn \in VarNames |-> IF vn \in st.tmut[T] THEN @[vn] \cup {KeyMutLost} ELSE @[vn]]]
                  ELSE st
 
-WithLeft(st, T) == [st EXCEPT !.taint = [vn \in VarNames |-> IF vn \in st.brk[T] THEN @[vn] \cup {KeyBreakSupp} ELSE @[vn]]]
 
 \* A case pattern with a guard matched and bound its capture names (store with via = "guard"); the body of the case was
 \* not entered (no cb event followed): the guard failed, the names stay bound (CPython), but the checker bound them in the
@@ -114,53 +122,46 @@ Step(st0, ev, o) ==
       [] ev.k = "s" -> StoreEv(st, o.stores[ev.site])
       [] ev.k = "cb" -> [st EXCEPT !.pend = {}]
       [] ev.k = "mx" -> st
+      \* observed: the variables ev.names hold (or contain) the very container object that the preceding store updated in
+      \* place: the program mutates a container through an alias, which the property excludes
+      [] ev.k = "al" -> [st EXCEPT !.taint = [vn \in VarNames |-> IF vn \in SeqToSet(ev.names) THEN @[vn] \cup {KeyAlias} ELSE @[vn]]]
       [] ev.k = "le" -> [st EXCEPT !.it[ev.loop] = 0]
       [] ev.k = "it" -> [st EXCEPT !.it[ev.loop] = @ + 1]
       [] ev.k = "lx" -> [st EXCEPT !.it[ev.loop] = 0]
-      \* Match statement ev.loop, which the checker found exhaustive (observed: visit_Match put LEAVES_SCOPE into the scope
-      \* of the block that contains the statement instead of a scope of its own), is being executed (xs) / one of its
-      \* cases matched (xm) / the end of the block containing it was reached (xb).  If a case matched, the checker's
-      \* belief "no fall-through" was right for this execution, but it dropped the whole block from the merge that
-      \* follows: the state it continues with describes the other paths only.
       [] ev.k = "te" -> [st EXCEPT !.tact = @ \cup {ev.loop}, !.tmut[ev.loop] = {}]
       [] ev.k = "tn" -> [st EXCEPT !.tact = @ \ {ev.loop}]
       [] ev.k = "xh" -> [Caught(st, ev.loop) EXCEPT !.tact = @ \ {ev.loop}]
       [] ev.k = "xf" -> Caught(st, ev.loop)
-      \* with statement ev.loop: entered (we; wj: its block contains a break / continue statement) / its body completed
-      \* (wn) / the statement was left normally (wq; without a preceding wn: the context manager suppressed an exception).
-      \* The body of a with statement whose context manager may suppress exceptions is analysed in a scope of its own that
-      \* is thrown away (stacked_scopes.suppressing_subscope): only the definition nodes created inside are re-applied
-      \* after the block.  In-place mutations (constraints) are not re-applied; and when a break / continue statement
-      \* occurs inside the block, its LEAVES_LOOP marker is one of the "definition nodes created inside", which makes the
-      \* re-applied scope count as a scope that left a loop: all assignments of the block are dropped.
-      [] ev.k \in {"we", "wj"} -> [st EXCEPT !.tact = @ \cup {ev.loop}, !.wact = @ \cup {ev.loop}, !.tmut[ev.loop] = {},
-                                              !.jact = IF ev.k = "wj" THEN @ \cup {ev.loop} ELSE @ \ {ev.loop}, !.brk[ev.loop] = {}]
+      \* with statement ev.loop: entered (we) / its body completed (wn) / the statement was left normally (wq; without a
+      \* preceding wn: the context manager suppressed an exception).  The body of a with statement whose context manager
+      \* may suppress exceptions is analysed in a scope of its own that is thrown away (stacked_scopes.suppressing_subscope):
+      \* only the definition nodes created inside are re-applied after the block, in-place mutations (constraints) are not.
+      \* (Two mechanisms that used to be replayed here were repaired in the code and excuse nothing any more: an exhaustive
+      \* match statement marking the enclosing block as leaving, 38601f1; a break / continue inside such a with block
+      \* dropping all assignments of the block, 440760d.  c01.py keeps their old behaviour as corrupted observations that
+      \* must come back as violations.)
+      [] ev.k = "we" -> [st EXCEPT !.tact = @ \cup {ev.loop}, !.wact = @ \cup {ev.loop}, !.tmut[ev.loop] = {}]
       [] ev.k \in {"wn", "wq"} -> IF ev.loop \in st.wact
-                                  THEN [WithLeft(Caught(st, ev.loop), ev.loop) EXCEPT !.tact = @ \ {ev.loop}, !.wact = @ \ {ev.loop},
-                                                                                    !.jact = @ \ {ev.loop}]
+                                  THEN [Caught(st, ev.loop) EXCEPT !.tact = @ \ {ev.loop}, !.wact = @ \ {ev.loop}]
                                   ELSE st
-      [] ev.k = "xs" -> [st EXCEPT !.matched = @ \ {ev.loop}]
-      [] ev.k = "xm" -> [st EXCEPT !.matched = @ \cup {ev.loop}]
-      [] ev.k = "xb" -> IF ev.loop \in st.matched
-                        THEN [st EXCEPT !.taint = [vn \in VarNames |-> @[vn] \cup {KeyMatchLeaves}]]
-                        ELSE st
 
 \* verdict for the unsound judged event ev (index i); st = state after the event's own sources were applied
 Classify(o, i, st, ev, nd) ==
     LET tn == NodeTaint(st, nd, ev.n)
         tid == o.tid
     IN IF KeyRejected \in tn THEN Say(tid, "dom:" \o KeyRejected \o ":" \o ToString(i))
+       ELSE IF KeyAlias \in tn THEN Say(tid, "dom:" \o KeyAlias \o ":" \o ToString(i))
        ELSE IF KeyVariadic \in tn THEN Say(tid, "dom:" \o KeyVariadic \o ":" \o ToString(i))
        ELSE IF KeyAny \in tn /\ ev.i.k # "any" THEN Say(tid, "dom:" \o KeyAny \o ":" \o ToString(i))
        ELSE IF KeyCrossEq \in tn /\ ContainsNumeric(ev.v) THEN Say(tid, "dom:" \o KeyCrossEq \o ":" \o ToString(i))
        ELSE IF KeyNumeric \in tn /\ ContainsNumeric(ev.v) THEN Say(tid, "dev:" \o KeyNumeric \o ":" \o ToString(i))
        ELSE IF Dev_LoopCarried(st, SeqToSet(nd.r)) THEN Say(tid, "dev:" \o KeyLoop \o ":" \o ToString(i))
        ELSE IF KeyTupleAdd \in tn THEN Say(tid, "dev:" \o KeyTupleAdd \o ":" \o ToString(i))
-       ELSE IF KeyMatchLeaves \in tn THEN Say(tid, "dev:" \o KeyMatchLeaves \o ":" \o ToString(i))
        ELSE IF KeyUnmodelled \in tn THEN Say(tid, "dev:" \o KeyUnmodelled \o ":" \o ToString(i))
+       ELSE IF KeyDictUnion \in tn THEN Say(tid, "dev:" \o KeyDictUnion \o ":" \o ToString(i))
+       ELSE IF KeyDictTD \in tn THEN Say(tid, "dev:" \o KeyDictTD \o ":" \o ToString(i))
        ELSE IF KeyExtendKnown \in tn THEN Say(tid, "dev:" \o KeyExtendKnown \o ":" \o ToString(i))
        ELSE IF KeyMutLost \in tn THEN Say(tid, "dev:" \o KeyMutLost \o ":" \o ToString(i))
-       ELSE IF KeyBreakSupp \in tn THEN Say(tid, "dev:" \o KeyBreakSupp \o ":" \o ToString(i))
        ELSE IF KeyGuardCapture \in tn THEN Say(tid, "dev:" \o KeyGuardCapture \o ":" \o ToString(i))
        ELSE IF nd.wt THEN Say(tid, "dev:" \o KeyWhileElse \o ":" \o ToString(i))
        ELSE IF nd.lc THEN Say(tid, "dev:" \o KeyLoopComposite \o ":" \o ToString(i))
